@@ -62,6 +62,7 @@ type Node struct {
 	Early    bool    // transform emits a first chunk before reading its input
 	Yields   int
 	OutKey   string // WithOutputKey
+	InKey    string // WithInputKey: the node reads this key of its input map
 	Pre      int
 	Post     int
 	UseState bool // body calls ProcessState
@@ -829,6 +830,9 @@ func (p *Plan) Render() string {
 		if n.OutKey != "" {
 			sb.WriteString(">" + n.OutKey)
 		}
+		if n.InKey != "" {
+			sb.WriteString("<" + n.InKey)
+		}
 		if n.AnyOut {
 			sb.WriteString(" :any")
 		}
@@ -1047,4 +1051,41 @@ func clearAnyTypes(p *Plan) {
 			clearAnyTypes(nd.Sub)
 		}
 	}
+}
+
+// decorateInputKeys: a node whose only data source is a node with an output key may read
+// that key with WithInputKey (it then receives the inner map).
+func decorateInputKeys(t *kernel.Tape, p *Plan, pct int) int {
+	k := 0
+	for _, n := range p.Nodes {
+		if n.Kind == KSub {
+			k += decorateInputKeys(t, n.Sub, pct)
+		}
+		if p.Mode == ModeWorkflow || n.Kind == KPass || n.RerunN > 0 || p.dataInDegree(n.Key) != 1 {
+			continue
+		}
+		src := ""
+		for _, e := range p.Edges {
+			if e.To == n.Key {
+				src = e.From
+			}
+		}
+		for _, b := range p.Branches {
+			for _, x := range b.Targets {
+				if x == n.Key && b.Data {
+					src = b.From
+				}
+			}
+		}
+		s := p.node(src)
+		if s == nil || s.OutKey == "" || s.AnyOut || s == n {
+			continue
+		}
+		if t.PlanBool(pct) {
+			n.InKey = s.OutKey
+			n.Pre = HNone
+			k++
+		}
+	}
+	return k
 }
